@@ -12,6 +12,9 @@ pub mod name;
 
 pub mod result;
 
+#[cfg(any(kani, mamba_verif))]
+pub use convert::state::Imports as VerifImports;
+
 #[derive(Default)]
 pub struct GenArguments {
     pub annotate: bool,
